@@ -27,6 +27,9 @@ type C06Case struct {
 	Total    string   `json:"total"`
 	TotalVar bool     `json:"totalvar"` // total passed through a monetary variable
 	Twice    bool     `json:"twice"`    // the send statement is written twice (every variable is then used twice)
+	// Warm: the parsed script is first executed once with other values of its variables
+	// (portion variables rotated, or zero next to a `remaining` clause; another total)
+	Warm bool `json:"warm,omitempty"`
 }
 
 func (c *C06Case) build() (*gen.ExecCase, []string) {
@@ -85,6 +88,28 @@ func (c *C06Case) build() (*gen.ExecCase, []string) {
 	ec.Script.Stmts = []*gen.Stmt{st}
 	if c.Twice {
 		ec.Script.Stmts = append(ec.Script.Stmts, st)
+	}
+	if c.Warm && len(ec.Vars) > 0 {
+		ec.Warm = map[string]string{}
+		hasRemaining := false
+		var pv []string
+		for i, p := range c.Portions {
+			if p == "remaining" {
+				hasRemaining = true
+			} else if i < len(c.AsVars) && c.AsVars[i] {
+				pv = append(pv, fmt.Sprintf("p%d", i))
+			}
+		}
+		for i, name := range pv {
+			if hasRemaining {
+				ec.Warm[name] = "0/1"
+			} else {
+				ec.Warm[name] = ec.Vars[pv[(i+1)%len(pv)]]
+			}
+		}
+		if c.TotalVar {
+			ec.Warm["total"] = "COIN 97"
+		}
 	}
 	return ec, names
 }
@@ -175,7 +200,7 @@ func enumC06(tier string, shard, nshards int, visit func(any) bool) (string, boo
 							if idx%nshards != shard {
 								continue
 							}
-							c := &C06Case{Portions: append([]string{}, ps...), AsVars: append([]bool{}, asv...), Side: side, Total: fmt.Sprint(x), Twice: mode == 3 && x%2 == 1}
+							c := &C06Case{Portions: append([]string{}, ps...), AsVars: append([]bool{}, asv...), Side: side, Total: fmt.Sprint(x), Twice: mode == 3 && x%2 == 1, Warm: mode == 3 && x%3 == 0}
 							if !visit(c) {
 								ok = false
 								return
@@ -310,6 +335,7 @@ func genC06(t *rapid.T, tier string) any {
 		c.TotalVar = gen.Chance(t, "totalvar", 20)
 	}
 	c.Twice = gen.Chance(t, "twice", 25)
+	c.Warm = gen.Chance(t, "warm", 30)
 	return c
 }
 
